@@ -37,6 +37,23 @@ func vrStat(name string) (os.FileInfo, error) { return nil, errors.New("no such 
 //verif:stub os.ReadFile
 func vrReadFile(name string) ([]byte, error) { return nil, os.ErrNotExist }
 
+// directories are created for forks that turn out to be empty (disabled)
+//
+//verif:stub os.Mkdir
+func vrMkdir(name string, perm os.FileMode) error { return nil }
+
+//verif:stub os.MkdirAll
+func vrMkdirAll(name string, perm os.FileMode) error { return nil }
+
+// ... and marked disabled
+var vrWritten []string
+
+//verif:stub os.WriteFile
+func vrWriteFile(name string, data []byte, perm os.FileMode) error {
+	vrWritten = append(vrWritten, name)
+	return nil
+}
+
 //verif:stub runtime/trace.StartRegion
 func vrStartRegion(ctx context.Context, regionType string) *trace.Region { return nil }
 
